@@ -21,6 +21,11 @@ CAT = ["f", "g", "h", "k"]
 NUM = ["x", "z"]
 
 
+def is_cat(v, case):
+    """`m` is a column whose KIND differs between designs built from the same formula text."""
+    return v in CAT or (v == "m" and case.get("m_kind") == "cat")
+
+
 def spec(tier):
     return {
         "level": "exploration",
@@ -72,10 +77,13 @@ def build_text(case):
 def make_case_frame(case):
     rng = np.random.default_rng(case["frame_seed"])
     used = sorted({v for t in case["terms"] for v in t})
-    factors = {v: case["levels"][v] for v in used if v in CAT}
-    kinds = {"f": "str", "g": "cat", "h": "ocat", "k": "code"}
+    factors = {v: case["levels"][v] for v in used if is_cat(v, case)}
+    kinds = {"f": "str", "g": "cat", "h": "ocat", "k": "code", "m": "str"}
     df, meta = frames.factorial_frame(rng, factors, reps=case.get("reps", 2), numerics=("x", "z"),
                                       kinds={v: kinds[v] for v in factors}, extra_rows=case.get("extra", 0))
+    if "m" in used and not is_cat("m", case):
+        df["m"] = rng.normal(size=len(df)) + 1.0
+        meta["m"] = {"kind": "num"}
     return df, meta
 
 
@@ -86,7 +94,7 @@ def judge(case, m):
     case = {**case, "text": text}
     df, meta = make_case_frame(case)
     # general position needs more rows than the model space has dimensions
-    need = 1 + sum(int(np.prod([case["levels"][v] if v in CAT else 4 for v in t])) for t in case["terms"])
+    need = 1 + sum(int(np.prod([case["levels"][v] if is_cat(v, case) else 4 for v in t])) for t in case["terms"])
     # multi-column numeric atoms (bs, poly) need that many distinct points in *every* cell
     width = {"bs(x, df=4)": 5, "poly(x, 2)": 3, "poly(z, 2)": 3}
     per_cell = max([int(np.prod([width.get(case.get("atoms", {}).get(v, v), 2) for v in t if v in NUM]))
@@ -112,7 +120,7 @@ def judge(case, m):
     def atom_matrix(v):
         if v in cache:
             return cache[v]
-        if v in CAT:
+        if is_cat(v, case):
             mat = space.indicators(df[v].tolist(), meta[v]["levels"])
         else:
             text_atom = atoms.get(v, v)
@@ -173,10 +181,10 @@ def enum_cases(tier):
 def finish_case(case, k, seed):
     r = random.Random(k * 2654435761 % (2 ** 31) + 17)
     if case.get("two_level"):
-        case["levels"] = {v: 2 for v in CAT}
+        case["levels"] = {v: 2 for v in CAT + ["m"]}
         case["reps"] = 2
     else:
-        case["levels"] = {v: r.choice([2, 3, 3, 4]) for v in CAT}
+        case["levels"] = {v: r.choice([2, 3, 3, 4]) for v in CAT + ["m"]}
         case["reps"] = r.choice([2, 2, 3])
     case["frame_seed"] = (k * 7919 + seed * 104729 + 5) % (2 ** 31)
     case["zero_style"] = k % 2
@@ -200,6 +208,24 @@ def run_shard(i, n, tier, seed, m):
     pool_vars = ["f", "g", "h", "k", "x", "z"]
     from workloads import designs as D
 
+    # histories: the SAME formula text on frames where the column m is numeric, then a factor, then numeric
+    # again - whatever an earlier design decided must not be reused for a later one
+    flip_terms = subsets(["f", "g", "m", "x"])
+    for j in range(nrand // 4):
+        fam = [list(t) for t in rng.sample(flip_terms, rng.choice([1, 2, 2, 3]))]
+        if not any("m" in t for t in fam):
+            fam.append(rng.choice([["m"], ["f", "m"], ["g", "m", "x"], ["m", "x"]]))
+        fam = [t for q, t in enumerate(fam) if sorted(t) not in [sorted(u) for u in fam[:q]]]
+        intercept = rng.random() < 0.5
+        base_k = rng.randrange(10 ** 9)
+        for step, kind in enumerate(rng.choice([["num", "cat", "num"], ["cat", "num", "cat"]])):
+            case = {"terms": [list(t) for t in fam], "intercept": intercept, "m_kind": kind}
+            case = finish_case(case, base_k + step, seed)
+            case["zero_style"] = 0
+            full = build_text(case)
+            m.case({**case, "text": full}, canon=[full, case["levels"], kind, base_k], nontrivial=True)
+            m.cls("kind-flip:" + kind)
+            judge(case, m)
     for j in range(nrand // 2):
         # operator-written families (+ : * / **): the same component objects may be reused by the
         # term algebra in several terms; the expected terms come from the reference algebra
